@@ -49,9 +49,9 @@ class FloorSim:
         world = worldgen.gen_world(rng, max_n=4 if big else 3, max_faces=8 if big else 5, max_vars=4, with_time=rng.random() < 0.8,
                                    allow_holes=False, materialise=rng.choice(['memory', 'memory', 'file', 'chunked']), min_vars=2)
         worldgen.add_depths(rng, world, max_layers=5 if big else 4)
-        vias = ['ops']
+        vias = [rng.choice(['ops', 'ops', 'ops_names'])]
         if world['time']:
-            vias = rng.choice([['ems'], ['ops'], ['ems', 'ops']])
+            vias = rng.choice([['ems'], ['ops'], ['ems', 'ops'], ['ops_names'], ['ems', 'ops_names']])
         fresh = [rng.randrange(1, 10000) for _ in range(2)] if rng.random() < (0.01 if not big else 0.004) else []
         # history: datasets of the same model grid (same dimensions, sizes, layer depths) but another bathymetry, reduced
         # earlier in the same process -- whatever emsarray remembers from them must not show in this dataset's floor
@@ -265,7 +265,12 @@ def _evaluate(world_spec, vias, scratch, orders, tag='input'):
                 else:
                     coords = [ds[d['name']] for d in world_spec['depths']]
                     nsv = [ds[world_spec['time']['name']]] if world_spec['time'] else []
-                    fl = depth_mod.ocean_floor(ds, coords, non_spatial_variables=nsv)
+                    if via == 'ops_names':
+                        # the documented argument types: any iterable of DataArrayOrName -- here names, handed over as one-shot iterators
+                        fl = depth_mod.ocean_floor(ds, iter([d['name'] for d in world_spec['depths']]),
+                                                   non_spatial_variables=iter([n_.name for n_ in nsv]))
+                    else:
+                        fl = depth_mod.ocean_floor(ds, coords, non_spatial_variables=nsv)
                 obs = observe.observe_dataset(fl, convention=True)
                 results.append({'via': via, 'order': list(order) if order else None, 'order_ix': oi, 'obs': obs, 'summary': _summary(obs)})
             except Exception as e:
